@@ -29,6 +29,7 @@ class Gen:
         self.sense = []
         self.namectr = 0
         self.h = "h0"
+        self.bnd = None      # optional list of [lo, up] per column (strings); when set, bound changes keep lo <= up
 
     # ------------------------------------------------------------ values
     def val(self, nonzero=False):
@@ -62,6 +63,18 @@ class Gen:
         if k < .8:
             return qstr(a), "inf"
         return qstr(a), qstr(b)
+
+    def _bnd_add(self, lo, up):
+        if self.bnd is not None:
+            self.bnd.append([lo, up])
+
+    @staticmethod
+    def _leq(a, b):
+        if a == "-inf" or b == "inf":
+            return True
+        if a == "inf" or b == "-inf":
+            return False
+        return Fraction(a) <= Fraction(b)
 
     def newname(self, prefix):
         self.namectr += 1
@@ -161,12 +174,14 @@ class Gen:
         if kind == "new_col":
             nm = self.newname("v") if r.random() < .7 else "-"
             lo, up = self.bounds()
+            self._bnd_add(lo, up)
             self.emit("new_col %s %s %s %s %s" % (h, qstr(self.val()), lo, up, nm))
             self.n += 1
             self.cn.append(None if nm == "-" else nm)
         elif kind == "add_col":
             nm = self.newname("v") if r.random() < .7 else "-"
             lo, up = self.bounds()
+            self._bnd_add(lo, up)
             e = self.ent(self.m)
             self.emit("add_col %s %s %s %s %s %s" % (h, self.entstr(e), qstr(self.val()), lo, up, nm))
             self.n += 1
@@ -178,6 +193,7 @@ class Gen:
             for _ in range(num):
                 nm = "-" if allnull else self.newname("v")
                 lo, up = self.bounds()
+                self._bnd_add(lo, up)
                 parts.append("%s %s %s %s %s" % (self.entstr(self.ent(self.m)), qstr(self.val()), lo, up, nm))
                 self.cn.append(None if nm == "-" else nm)
             self.emit("  ".join(parts))
@@ -248,6 +264,8 @@ class Gen:
                 self.emit("delete_named_columns %s %d %s" % (h, len(idx), " ".join(self.cn[i] for i in idx)))
         for i in reversed(idx):
             del self.cn[i]
+            if self.bnd is not None:
+                del self.bnd[i]
         self.n -= len(idx)
 
     def op_change(self):
@@ -294,11 +312,28 @@ class Gen:
                 vs = "-inf"
             if lu == "U" and r.random() < .2:
                 vs = "inf"
+            if self.bnd is not None:
+                lo, up = self.bnd[j]
+                nlo, nup = (vs if lu in "LB" else lo), (vs if lu in "UB" else up)
+                if nlo == "inf" or nup == "-inf" or not self._leq(nlo, nup):
+                    return          # would make the column's box empty: well-formed LPs only
+                self.bnd[j] = [nlo, nup]
             self.emit("change_bound %s %d %s %s" % (h, j, lu, vs))
         elif k == "change_bounds":
             num = r.randint(1, min(3, self.n))
             idx = r.sample(range(self.n), num)
-            self.emit("change_bounds %s %d %s" % (h, num, " ".join("%d %s %s" % (j, r.choice("LUB"), qstr(self.val())) for j in idx)))
+            trip = [(j, r.choice("LUB"), qstr(self.val())) for j in idx]
+            if self.bnd is not None:
+                new = {}
+                for j, lu, vs in trip:
+                    lo, up = self.bnd[j]
+                    nlo, nup = (vs if lu in "LB" else lo), (vs if lu in "UB" else up)
+                    if not self._leq(nlo, nup):
+                        return
+                    new[j] = [nlo, nup]
+                for j, b in new.items():
+                    self.bnd[j] = b
+            self.emit("change_bounds %s %d %s" % (h, num, " ".join("%d %s %s" % t for t in trip)))
         else:
             self.emit("change_objsense %s %s" % (h, r.choice(["min", "max"])))
 
